@@ -25,7 +25,10 @@ def make_generator(name, prog, acl_text, vendor):
         k = 0
         for o in prog:
             op = o["op"]
-            if op == "y":
+            if op == "y" and o.get("plist"):
+                from annet.generators import ParamsList
+                yield tuple(o["plist"][0]) + (ParamsList(o["plist"][1]),)
+            elif op == "y":
                 k += 1
                 yield tuple(o["row"]) if (k % 2 and len(o["row"]) > 1) else " ".join(o["row"])
             elif op == "ym":
